@@ -170,6 +170,15 @@ func specials() []special {
 		{Name: "anyxml-default", Shape: "pathological", Text: hdr("a") + " anyxml ax { default \"x\"; } }"},
 		{Name: "anydata-units", Shape: "pathological", Text: hdr("a") + " anydata ad { units \"x\"; } }"},
 		{Name: "refine-default-on-anydata", Shape: "pathological", Text: hdr("a") + " grouping g { anydata ad; } uses g { refine ad { default \"x\"; } } }"},
+		{Name: "two-defaults-first-empty", Shape: "pathological", Text: hdr("a") + " leaf l { type string; default \"\"; default \"b\"; } }"},
+		{Name: "two-defaults-typedef-first-empty", Shape: "pathological", Text: hdr("a") + " typedef t { type string; default \"\"; default \"b\"; } leaf l { type t; } }"},
+		{Name: "two-defaults-choice", Shape: "pathological", Text: hdr("a") + " choice c { default \"x\"; default \"y\"; leaf x { type string; } leaf y { type string; } } }"},
+		{Name: "include-gets-module-text", Shape: "opener-fault", Text: hdr("a") + " include s; }", Mods: map[string]string{"s": hdr("s") + " leaf y { type string; } }"}},
+		{Name: "include-gets-empty-text", Shape: "opener-fault", Text: hdr("a") + " include s; }", Mods: map[string]string{"s": ""}},
+		{Name: "include-gets-truncated-header", Shape: "opener-fault", Text: hdr("a") + " include s; }", Mods: map[string]string{"s": "submodule s"}},
+		{Name: "nested-include-gets-module-text", Shape: "opener-fault", Text: hdr("a") + " include s; }", Mods: map[string]string{"s": "submodule s { belongs-to a { prefix a; } include t; }", "t": hdr("t") + " }"}},
+		{Name: "grouping-cycle-of-three", Shape: "cycle", Text: hdr("a") + " grouping g { uses h; } grouping h { uses i; } grouping i { uses g; } container c { uses g; } }"},
+		{Name: "grouping-cycle-in-rpc-input", Shape: "cycle", Text: hdr("a") + " grouping g { uses h; } grouping h { uses g; } rpc r { input { uses g; } } }"},
 		{Name: "choice-in-choice-direct", Shape: "pathological", Text: hdr("a") + " choice c { choice d { leaf x { type string; } } } }"},
 	}
 }
